@@ -121,6 +121,20 @@ func mintLeaf(ca *x509.Certificate, caKey crypto.Signer, key crypto.Signer, notA
 	return c, der
 }
 
+func mintIntermediate(ca *x509.Certificate, caKey crypto.Signer, key crypto.Signer, notAfter time.Time, serial int64) (*x509.Certificate, []byte) {
+	tpl := &x509.Certificate{
+		SerialNumber: big.NewInt(serial), Subject: pkix.Name{CommonName: "sim intermediate"},
+		NotBefore: time.Now().Add(-time.Hour), NotAfter: notAfter,
+		IsCA: true, BasicConstraintsValid: true, KeyUsage: x509.KeyUsageCertSign | x509.KeyUsageCRLSign,
+	}
+	der, err := x509.CreateCertificate(rand.Reader, tpl, ca, key.Public(), caKey)
+	if err != nil {
+		panic(err)
+	}
+	c, _ := x509.ParseCertificate(der)
+	return c, der
+}
+
 func pemCert(der []byte) []byte { return pem.EncodeToMemory(&pem.Block{Type: "CERTIFICATE", Bytes: der}) }
 
 // signJWT creates a compact JWS with the given claims.
